@@ -98,8 +98,9 @@ class Sim:
     def content_of(self, n, r):
         idm = self.idmaps[n]
         try:
-            R = tuple(idm[s.name] for s in r.reactants)
-            P = tuple(idm[s.name] for s in r.products)
+            # the order of the species inside a reaction is not part of the property
+            R = tuple(sorted(idm[s.name] for s in r.reactants))
+            P = tuple(sorted(idm[s.name] for s in r.products))
         except KeyError as e:
             raise Violation("unknown-species-spelling", f"net {n}: reaction {r!r} mentions a species spelled {e} "
                                                         "that this network's configuration never uses")
